@@ -180,6 +180,8 @@ def step (d : DState) (toks : List String) : DState × String :=
       | _ => (d, "bad-op")
     | _, _ => (d, "bad-op")
   | ["end"] => (d, endVerdict d)
+  /- the implementation run aborted the process (no trace): nothing to replay, echoed -/
+  | ["end", "abort"] => (d, "abort")
   /- model-only ops: replay a schedule on the canonical paths of the table.
      `sched <k1> <i1> <k2> <i2> : <t> <t> ...` answers the status after the schedule -/
   | "sched" :: k1 :: i1 :: k2 :: i2 :: ":" :: sch =>
